@@ -20,6 +20,7 @@ def run(ctx, rep):
     frontend.rule_nested_array_element_continues(ctx, rep, "C13-R14")
     frontend.rule_decimal_point_needs_no_digits(ctx, rep, "C13-R15")
     frontend.rule_new_callee_is_member_expression(ctx, rep, "C13-R16")
+    frontend.rule_literal_scanner_details(ctx, rep, "C13-R17")
     rep.undecided += [
         "layout independence and print/parse round trip over all token sequences (no printer exists in the repo; generative/differential property)",
         "alternative literal spellings denote the same value (value property)",
